@@ -44,6 +44,10 @@ var c16Queries = []c16Query{
 	{10, "SELECT id, v FROM t WHERE id > ?", 2, true}, // OPEN without USING: fails as soon as the placeholder is evaluated
 	{11, "SELECT id, v FROM t WHERE id > 1", 2, false},
 	{12, "SELECT id, v FROM t WHERE id > 3", 2, false},
+	// prepared statement s5 = SELECT id INTO @into FROM t: OPEN fails after the view is built when t has two or more rows
+	{20, "SELECT id INTO @into FROM t", 1, true},
+	{21, "SELECT id INTO @into FROM t", 1, true},
+	{22, "SELECT id INTO @into FROM t", 1, true},
 }
 
 var c16Using = []string{"", " USING 1", " USING 3"}
@@ -58,12 +62,12 @@ type c16Src struct {
 var c16Sources = []c16Src{
 	{false, 1, 2}, {false, 1, 2}, {false, 1, 2}, {false, 1, 2}, {false, 2, 1}, {false, 2, 1}, {false, 3, 2}, {false, 3, 2}, {false, 3, 2},
 	{false, 4, 1}, {false, 4, 1}, {false, 5, 1},
-	{true, 1, 2}, {true, 1, 2}, {true, 1, 2}, {true, 2, 0}, {true, 3, 0}, {true, 4, 0},
+	{true, 1, 2}, {true, 1, 2}, {true, 1, 2}, {true, 2, 0}, {true, 3, 0}, {true, 4, 0}, {true, 5, 1}, {true, 5, 1},
 }
 
 func (s c16Src) valid() bool {
 	if s.stmt {
-		return s.id == 1
+		return s.id == 1 || s.id == 5
 	}
 	return s.id != 5
 }
@@ -86,7 +90,7 @@ func (s c16Src) coq() string {
 	return fmt.Sprintf("(QDirect %d%%N)", s.id)
 }
 
-const c16Prep = "[(1%N, PSelect 10%N); (2%N, PNotSelect); (4%N, PNotSelect)]"
+const c16Prep = "[(1%N, PSelect 10%N); (2%N, PNotSelect); (4%N, PNotSelect); (5%N, PSelect 20%N)]"
 
 // ---- operations ------------------------------------------------------------------------------------
 type c16Pos struct {
@@ -1025,7 +1029,7 @@ func c16RunCase(cs *c16Case) (initDB string, obs []c16Obs, fail *c16Failure) {
 			}
 		}
 	}()
-	x.must("VAR @v0, @v1, @v2, @v3, @p;")
+	x.must("VAR @v0, @v1, @v2, @v3, @p, @into;")
 	x.must("DECLARE tt VIEW (id, v);")
 	for _, r := range cs.ttRows {
 		x.must(fmt.Sprintf("INSERT INTO tt VALUES (%s, %s);", r[0], r[1]))
@@ -1036,6 +1040,7 @@ func c16RunCase(cs *c16Case) (initDB string, obs []c16Obs, fail *c16Failure) {
 	x.must("PREPARE s1 FROM 'SELECT id, v FROM t WHERE id > ?';")
 	x.must("PREPARE s2 FROM 'INSERT INTO tt VALUES (99, 99)';")
 	x.must("PREPARE s4 FROM 'SELECT 1; SELECT 2';")
+	x.must("PREPARE s5 FROM 'SELECT id INTO @into FROM t';")
 	x.must("COMMIT;")
 	x.lastDB = x.evalDB()
 	initDB = c16DBCoq(x.lastDB, nil)
@@ -1050,7 +1055,7 @@ func c16RunCase(cs *c16Case) (initDB string, obs []c16Obs, fail *c16Failure) {
 func runC16(seed int64, tier string, out string) {
 	r := rand.New(rand.NewSource(seed))
 	meta := newMeta("C16", seed)
-	meta.Rule = "a case is one history of 8-25 statements (plus a fixed corpus of boundary walks) over cursors c1..c3 (names in varying case) declared for 5 queries on a CSV file table t (0-6 rows) and a temporary table tt (0-4 typed rows) or for prepared statements (valid with/without USING, not a SELECT, two statements, missing): DECLARE / OPEN [USING] / FETCH [NEXT|PRIOR|FIRST|LAST|ABSOLUTE n|RELATIVE n] INTO (n: small, negative, 0, len, +-2^62, +-2^63, NULL, text, float, NaN, boolean; right and wrong variable counts, duplicates, an undeclared variable) / CLOSE / DISPOSE / CURSOR c IS [NOT] OPEN / IS [NOT] IN RANGE / COUNT / WHILE vars IN c DO log; body END WHILE (bodies: fetches, open/close/declare/dispose, one idempotent data change, BREAK, CONTINUE) / entering and leaving blocks / pseudo cursors, interleaved with INSERT/UPDATE/DELETE/ROLLBACK/COMMIT on both tables; executed statement by statement on one transaction. Distinct non-trivial = distinct sequences of (statement kind, position kind, error class, did the variables change) among histories in which at least two fetches delivered a row and a data change happened while a cursor was open."
+	meta.Rule = "a case is one history of 8-25 statements (plus a fixed corpus of boundary walks) over cursors c1..c3 (names in varying case) declared for 5 queries on a CSV file table t (0-6 rows) and a temporary table tt (0-4 typed rows) or for prepared statements (valid with/without USING, a SELECT INTO whose OPEN fails when t has 2+ rows, not a SELECT, two statements, missing): DECLARE / OPEN [USING] / FETCH [NEXT|PRIOR|FIRST|LAST|ABSOLUTE n|RELATIVE n] INTO (n: small, negative, 0, len, +-2^62, +-2^63, NULL, text, float, NaN, boolean; right and wrong variable counts, duplicates, an undeclared variable) / CLOSE / DISPOSE / CURSOR c IS [NOT] OPEN / IS [NOT] IN RANGE / COUNT / WHILE vars IN c DO log; body END WHILE (bodies: fetches, open/close/declare/dispose, one idempotent data change, BREAK, CONTINUE) / entering and leaving blocks / pseudo cursors, interleaved with INSERT/UPDATE/DELETE/ROLLBACK/COMMIT on both tables; executed statement by statement on one transaction. Distinct non-trivial = distinct sequences of (statement kind, position kind, error class, did the variables change) among histories in which at least two fetches delivered a row and a data change happened while a cursor was open."
 	w := &shardWriter{dir: out, prop: "C16", max: 100, meta: meta,
 		header: "From Coq Require Import ZArith NArith List Floats.\nRequire Import Csvq.Model.Base Csvq.Model.Value Csvq.Model.Cursor Csvq.Harness.H16.\nOpen Scope list_scope.\n",
 		footer: func(ls []string) string {
@@ -1127,7 +1132,7 @@ func runC16(seed int64, tier string, out string) {
 		mk := func(mode int, tags []string) {
 			w.add("cases:ccase", fmt.Sprintf("mkC %s %d%%N\n  %s\n  [VNull; VNull; VNull; VNull] %s\n  [%s]", coqN(id), mode, initDB, c16Prep, strings.Join(steps, ";\n   ")))
 			c := map[string]interface{}{"origin": origin, "table_t": tRows, "table_tt": cs.ttRows, "history": show,
-				"setup": "VAR @v0..@v3,@p; DECLARE tt VIEW (id, v) + rows; wlog1..3; PREPARE s1 FROM 'SELECT id, v FROM t WHERE id > ?'; s2 = an INSERT; s4 = two statements; COMMIT"}
+				"setup": "VAR @v0..@v3,@p; DECLARE tt VIEW (id, v) + rows; wlog1..3; PREPARE s1 FROM 'SELECT id, v FROM t WHERE id > ?'; s2 = an INSERT; s4 = two statements; s5 = 'SELECT id INTO @into FROM t' (its OPEN fails after the view is built when t has 2+ rows); COMMIT"}
 			if tags != nil {
 				c["tags"] = tags
 				c["note"] = "compared with the exact-arithmetic specification only (mode 2); its twin with the previous id is compared with the bug-compatible model"
